@@ -363,9 +363,32 @@ struct TyOps {
 fn ops_clonable<T: Tracked + Clone>(name: &'static str, readback: fn(u32) -> u32) -> TyOps {
     TyOps {
         name,
-        set: |m, v| m.set_content(T::mk(v)),
-        cast: |m| m.try_cast::<T>().map(|(t, _h)| t.val()),
-        content: |m| m.try_content::<T>().map(Tracked::val),
+        // the three ways of storing a clonable value, in turn
+        set: |m, v| match v % 3 {
+            0 => m.set_content(T::mk(v)),
+            1 => m.set_body(des::net::message::Body::new(T::mk(v))),
+            _ => {
+                let old = std::mem::take(m);
+                *m = old.with_content(T::mk(v));
+            }
+        },
+        // try_cast decides; when it would succeed, the panicking `cast` must agree
+        cast: |m| {
+            if m.can_cast::<T>() && m.header().id % 2 == 1 {
+                let (t, _h) = m.cast::<T>();
+                Ok(t.val())
+            } else {
+                m.try_cast::<T>().map(|(t, _h)| t.val())
+            }
+        },
+        content: |m| {
+            let a = m.try_content::<T>().map(Tracked::val);
+            if a.is_some() {
+                // the panicking accessor agrees with the checked one
+                assert_eq!(Some(m.content::<T>().val()), a, "content::<T>() and try_content::<T>() disagree");
+            }
+            a
+        },
         can: |m| m.can_cast::<T>(),
         exp_len: T::exp_len,
         leaves: T::leaves,
@@ -385,6 +408,19 @@ fn ops_nc() -> TyOps {
         readback: |v| v,
         clonable: false,
     }
+}
+
+/// two distinct types that share one name (and therefore one `std::any::type_name`)
+fn twin_types() -> (TyOps, TyOps) {
+    let a = {
+        leaf!(Same, u32, |v| v, |i| Some(*i), |_| 4);
+        ops_clonable::<Same>("Same#1 (first of two same-named local types)", |v| v)
+    };
+    let b = {
+        leaf!(Same, u32, |v| v, |i| Some(*i), |_| 4);
+        ops_clonable::<Same>("Same#2 (second of two same-named local types)", |v| v)
+    };
+    (a, b)
 }
 
 fn types() -> Vec<TyOps> {
@@ -423,6 +459,8 @@ fn types() -> Vec<TyOps> {
         ops_clonable::<T5>("T5(5-tuple)", |v| v),
         ops_clonable::<PR>("PR((bool,char,u128,&str))", |v| v),
         ops_clonable::<VV>("VV(Vec<Vec<u16>>)", |v| u32::from(v as u16)),
+        twin_types().0,
+        twin_types().1,
     ]
 }
 
@@ -651,7 +689,7 @@ impl Property for C16 {
     }
     fn rule(&self, tier: Tier) -> String {
         format!(
-            "every history of exactly {} operations over 20 body types (82 ops), of exactly {} operations over 9 core types (38 ops) and of exactly {} operations over 13 container / std types (54 ops: a VecDeque with a wrapped ring buffer, LinkedList, BTreeMap, HashMap, BTreeSet, HashSet, IpAddr and SocketAddr in both variants, Duration, SimTime, a 5-tuple, (bool,char,u128,&str), Vec<Vec<u16>>) (every shorter history is a checked prefix), on a stack of messages, ops = {{set_content(T), try_cast<T>, try_content<T>, can_cast<T> per type, try_clone, drop}}; \
+            "every history of exactly {} operations over 20 body types (82 ops), of exactly {} operations over 9 core types (38 ops) and of exactly {} operations over 13 container / std types and two distinct types with one and the same type name (62 ops: a VecDeque with a wrapped ring buffer, LinkedList, BTreeMap, HashMap, BTreeSet, HashSet, IpAddr and SocketAddr in both variants, Duration, SimTime, a 5-tuple, (bool,char,u128,&str), Vec<Vec<u16>>) (every shorter history is a checked prefix), on a stack of messages, ops = {{set_content(T), try_cast<T>, try_content<T>, can_cast<T> per type, try_clone, drop}}; \
              types: u32 / i32 / f32 / [u8;4] / derived newtype (layout twins), String, Vec<u8>, Option<u32>, (), derived struct, derived enum (unit/tuple/named variants), nested derived struct, a non-Clone type, Result, Box, tuple, derived tuple struct with 3 fields, derived generic struct, derived enum with 4 variants, an array of options with unequal element lengths; \
              oracle: typed-value model (cast/borrow succeeds iff same type and yields the stored value; failure returns the message intact), live-object counter after every op and after dropping everything, \
              length() == 64 + independently computed byte length; plus one 2-module simulation per type checking arrival time == length*8/bitrate; \
